@@ -216,6 +216,11 @@ class C05(PropertyCheck):
         for i, (a, b) in enumerate(itertools.combinations(writers[:6] if q else writers, 2)):
             jobs.append(Job("cw%d" % i, [("cmd", a), ("cmd", b), ("copy",), ("sweep", 0)] if not q or i % 4 == 0 else
                             [("cmd", a), ("cmd", b), ("sweep", 0)], {"max": 150 if q else 400}))
+        # a read in flight, a state copy queued behind it, a write arriving: whoever gets the command lock next, everybody
+        # finishes (a flag that a waiting writer has already raised must not stop the copy that holds the lock)
+        for i, (r_, w_) in enumerate([(["GET", "n"], ["SET", "n", "9"]), (["LRANGE", "l", "0", "-1"], ["LPUSH", "l", "q"]),
+                                      (["MGET", "n", "s"], ["INCR", "n"])]):
+            jobs.append(Job("rcw%d" % i, [("cmd", r_), ("copy",), ("cmd", w_)], {"max": 300 if q else 1000}))
         # a state copy that is rendered only after the other command has finished (regression of the repaired
         # defect "the copy shares sets / sorted sets / hashes with the store by pointer"): the model's copy is a value
         for i, a in enumerate([c for c in pool if c[0] in ("SADD", "SREM", "SMOVE", "ZADD", "ZINCRBY", "ZREM", "HSET", "HDEL", "LPUSH", "APPEND")]):
